@@ -563,6 +563,12 @@ func main() {
 	if gen.Thorough() {
 		nF, nT = 3000, 400
 	}
+	if len(os.Args) > 1 && os.Args[1] == "dataplane" {
+		for i := 0; i < 6; i++ {
+			dataPlaneScenario(rng, 2+rng.Intn(3))
+		}
+		return
+	}
 	if len(os.Args) > 1 && os.Args[1] == "d8reader" {
 		scenarioD8Reader()
 		return
@@ -574,6 +580,13 @@ func main() {
 		s := newScen(rng, topics, rng.Intn(2) == 0, []int{0, 10, 20}[rng.Intn(3)])
 		s.run(40 + rng.Intn(80))
 		s.emit()
+	}
+	nD := 6
+	if gen.Thorough() {
+		nD = 40
+	}
+	for i := 0; i < nD; i++ {
+		dataPlaneScenario(rng, 2+rng.Intn(3))
 	}
 	nM := 12
 	if gen.Thorough() {
